@@ -248,8 +248,14 @@ class SymSimulator:
             st = apply_matrix(st, n, M, qs)
         return _Result(sv=shim.SymArray(st), measurements=meas)
 
-    def run(self, *a, **k):
-        raise SymEscape("cirq.Simulator.run (sampling many repetitions) is not modelled")
+    def run(self, circuit, repetitions=1, **k):
+        """cirq contract: `repetitions` independent executions, each from |0...0>; every measurement key maps to an array of shape
+        (repetitions, n_measured_qubits). Each execution's outcomes are solver-explored like those of simulate()."""
+        if k.get("param_resolver") is not None:
+            raise SymEscape("cirq.Simulator.run with a param_resolver is not modelled")
+        per = [self.simulate(circuit, initial_state=0).measurements for _ in range(int(repetitions))]
+        meas = {key: np.array([[int(x) for x in per[j][key]] for j in range(len(per))]) for key in (per[0] if per else {})}
+        return _Result(measurements=meas)
 
 
 class SymDensityMatrixSimulator(SymSimulator):
